@@ -104,4 +104,30 @@ theorem relay_noninterference (c2s s2c s2c' : List Bytes) (ce se se' : End) :
 example : delivered (copyHalf [[1, 2], [3]] .eof).outs = [1, 2, 3] := by decide
 example : delivered (copyHalfSplice [[1, 2, 3, 4], [5, 6]] .eof [3, 1]).outs = [1, 2, 3, 4, 5, 6] := by decide
 
+/-! ### short writes -/
+
+/-- whatever short counts the destination's `write` returns, `write_all` puts exactly the chunk on the wire -/
+theorem writeAll_delivers (fuel : Nat) (chunk : Bytes) (script : List Nat) (h : chunk.length < fuel) :
+    writeAll fuel chunk script = chunk := by
+  induction fuel generalizing chunk script with
+  | zero => omega
+  | succ f ih =>
+    cases chunk with
+    | nil => simp [writeAll]
+    | cons b rest =>
+      cases script with
+      | nil => simp [writeAll]
+      | cons n ns =>
+        simp only [writeAll]
+        have hk : 1 ≤ min (max n 1) (b :: rest).length := by
+          simp only [List.length_cons]; omega
+        rw [ih ((b :: rest).drop (min (max n 1) (b :: rest).length)) ns (by
+          simp only [List.length_drop, List.length_cons] at *; omega)]
+        exact List.take_append_drop _ _
+
+/-- restarting at offset 0 after a short write (seeded change C01d): the right NUMBER of bytes, the wrong bytes -/
+theorem restart_after_short_write_corrupts :
+    writeAllRestarting 10 [1, 2, 3, 4, 5] 5 [2, 3] = [1, 2, 1, 2, 3] ∧ writeAll 10 [1, 2, 3, 4, 5] [2, 3] = [1, 2, 3, 4, 5] := by
+  decide
+
 end Redproxy.Props.C01
